@@ -1,0 +1,57 @@
+//go:build verif
+
+// Contracts for govc (see /verif/DESIGN.md). Comment-only: compiled only with -tags verif.
+package coregex
+
+// stringToBytes reinterprets the string's bytes without copying (unsafe): the result ALIASES the string.
+// ASSUMED (unsafe.Slice/unsafe.StringData). Because it aliases, any store through the result would be a write
+// to the string's memory: the frame check of every caller shows that no such store happens (C07).
+//@ trusted func stringToBytes
+//@   ensures base(result) == base(s) && off(result) == off(s) && len(result) == len(s) && cap(result) == len(s)
+
+//@ spec func regexOK(r *Regex) bool = r != nil && engineOK(r.engine)
+
+//@ func advancePastEmpty
+//@   props C04 C08 C07
+//@   requires 0 <= pos && pos <= len(haystack) + 1 && len(haystack) <= 140737488355328
+//@   ensures result == ite(pos >= len(haystack), pos + 1, pos + runeW(haystack, pos)) && result > pos && result <= len(haystack) + 2
+
+//@ func (*Regex).Match
+//@   props C11 C01 C07
+//@   requires regexOK(r)
+//@   modifies @searchState
+//@   ensures result == refFound(r.engine, r.engine.longest, b, 0)
+
+//@ func (*Regex).MatchString
+//@   props C11 C01 C07
+//@   requires regexOK(r)
+//@   modifies @searchState
+//@   ensures result == refFound(r.engine, r.engine.longest, stringBytes(s), 0)
+
+//@ func (*Regex).FindIndex
+//@   props C11 C02 C07
+//@   requires regexOK(r)
+//@   modifies @searchState
+//@   ensures (result == nil) == !refFound(r.engine, r.engine.longest, b, 0)
+//@   ensures result != nil ==> len(result) == 2 && result[0] == refStart(r.engine, r.engine.longest, b, 0) && result[1] == refEnd(r.engine, r.engine.longest, b, 0)
+
+//@ func (*Regex).Find
+//@   props C11 C02 C07
+//@   requires regexOK(r)
+//@   modifies @searchState
+//@   ensures refFound(r.engine, r.engine.longest, b, 0) ==> base(result) == base(b) && off(result) == off(b) + refStart(r.engine, r.engine.longest, b, 0) && len(result) == refEnd(r.engine, r.engine.longest, b, 0) - refStart(r.engine, r.engine.longest, b, 0)
+//@   ensures !refFound(r.engine, r.engine.longest, b, 0) ==> result == nil
+
+//@ func (*Regex).FindStringIndex
+//@   props C11 C02 C07
+//@   requires regexOK(r)
+//@   modifies @searchState
+//@   ensures (result == nil) == !refFound(r.engine, r.engine.longest, stringBytes(s), 0)
+//@   ensures result != nil ==> len(result) == 2 && result[0] == refStart(r.engine, r.engine.longest, stringBytes(s), 0) && result[1] == refEnd(r.engine, r.engine.longest, stringBytes(s), 0)
+
+//@ func (*Regex).FindString
+//@   props C11 C02 C07
+//@   requires regexOK(r)
+//@   modifies @searchState
+//@   ensures refFound(r.engine, r.engine.longest, stringBytes(s), 0) ==> base(result) == base(s) && off(result) == off(s) + refStart(r.engine, r.engine.longest, stringBytes(s), 0) && len(result) == refEnd(r.engine, r.engine.longest, stringBytes(s), 0) - refStart(r.engine, r.engine.longest, stringBytes(s), 0)
+//@   ensures !refFound(r.engine, r.engine.longest, stringBytes(s), 0) ==> len(result) == 0
